@@ -2,6 +2,7 @@ package parser
 
 import (
 	"regexp"
+	"strings"
 
 	"github.com/robertkrimen/otto/ast"
 	"github.com/robertkrimen/otto/file"
@@ -134,7 +135,7 @@ func (p *parser) parseRegExpLiteral() *ast.RegExpLiteral {
 	}
 
 	flags := ""
-	if p.token == token.IDENTIFIER { // gim
+	if p.token == token.IDENTIFIER && !strings.ContainsAny(p.str[endOffset:int(p.idx)-p.base], "\n\r\u2028\u2029") { // gim, not an identifier on a following line
 		flags = p.literal
 		endOffset = p.chrOffset
 		p.next()
